@@ -23,6 +23,7 @@ with the forked model's, besides satisfying the property.  It is skipped (and sa
 when ptrace is not permitted.
 """
 import builtins
+import errno
 import io
 import json
 import os
@@ -86,19 +87,62 @@ EXIT_HARNESS = 4
 
 # =========================================================================== crash injection (child side)
 class _Counter:
-    """counts file-system operations in the child; dies after operation number `crash_at`"""
+    """counts file-system operations in the child.  Two kinds of fault:
+    * death: the process dies (os._exit, nothing flushed) after operation number `crash_at`;
+    * failure: operation number fault['at'] is not performed and raises OSError(fault['errno']) into the
+      program, which then carries on or fails as it sees fit (mode 'once': only that operation fails;
+      'sticky': every later write fails too, as on a full disk; 'rlimit': nothing is simulated, the kernel
+      refuses to let a file grow beyond fault['limit'] bytes and os.write itself raises EFBIG).
+      From the failure on, `observe()` is called after every operation: the directory at that instant is
+      what a death at that instant would leave."""
 
-    def __init__(self, crash_at, pieces):
+    def __init__(self, crash_at, pieces, fault=None, observe=None):
         self.n = 0
         self.crash_at = crash_at
         self.pieces = pieces
         self.trace = []
+        self.nbytes = []
+        self.fault = fault
+        self.faulted = False
+        self.observe = observe
 
-    def done(self, what):
+    def done(self, what, nbytes=0):
         self.n += 1
         self.trace.append(what)
+        self.nbytes.append(nbytes)
         if self.crash_at is not None and self.n >= self.crash_at:
             os._exit(EXIT_CRASH)
+        if self.faulted and self.observe:
+            self.observe(self.n, what)
+
+    def _failed(self, what, err):
+        self.n += 1
+        what = "%s !%s" % (what, err)
+        self.trace.append(what)
+        self.nbytes.append(0)
+        self.faulted = True
+        if self.observe:
+            self.observe(self.n, what)
+
+    def op(self, what, fn, nbytes=0, on_fail=None):
+        """perform one file-system operation, or fail it"""
+        f = self.fault
+        if f and f["mode"] != "rlimit":
+            idx = self.n + 1
+            if idx == f["at"] or (self.faulted and f["mode"] == "sticky" and what.startswith("write ")):
+                if on_fail:
+                    on_fail()
+                self._failed(what, f["errno"])
+                code = getattr(errno, f["errno"])
+                raise OSError(code, os.strerror(code))
+        try:
+            r = fn()
+        except OSError as e:
+            if f and f["mode"] == "rlimit":  # the kernel said no (EFBIG): a real failing operation
+                self._failed(what, errno.errorcode.get(e.errno, str(e.errno)) + "(kernel)")
+            raise
+        self.done(what, nbytes)
+        return r
 
 
 class _CountingRaw(io.RawIOBase):
@@ -111,9 +155,9 @@ class _CountingRaw(io.RawIOBase):
         self._c = counter
         self._path = os.fspath(path)
         self._base = os.path.basename(self._path)
-        self._fd = os.open(self._path, flags, 0o666)
+        self._fd = -1
         self.name = self._path
-        counter.done("open %s" % self._base)
+        self._fd = counter.op("open %s" % self._base, lambda: os.open(self._path, flags, 0o666))
 
     def writable(self):
         return True
@@ -136,9 +180,13 @@ class _CountingRaw(io.RawIOBase):
     def truncate(self, size=None):
         if size is None:
             size = self.tell()
-        os.ftruncate(self._fd, size)
-        self._c.done("truncate %s" % self._base)
+        self._c.op("truncate %s" % self._base, lambda: os.ftruncate(self._fd, size))
         return size
+
+    def _write_all(self, chunk):
+        off = 0
+        while off < len(chunk):
+            off += os.write(self._fd, chunk[off:])
 
     def write(self, b):
         data = bytes(b)
@@ -149,10 +197,7 @@ class _CountingRaw(io.RawIOBase):
         cuts = [0] + [n * i // k for i in range(1, k)] + [n]
         for a, z in zip(cuts, cuts[1:]):
             if z > a:
-                off = a
-                while off < z:
-                    off += os.write(self._fd, data[off:z])
-                self._c.done("write %s" % self._base)
+                self._c.op("write %s" % self._base, lambda: self._write_all(data[a:z]), z - a)
         return n
 
     def close(self):
@@ -161,9 +206,8 @@ class _CountingRaw(io.RawIOBase):
                 super().close()  # marks closed, flushes nothing at the raw level
             finally:
                 fd, self._fd = self._fd, -1
-                if fd >= 0:
-                    os.close(fd)
-                    self._c.done("close %s" % self._base)
+                if fd >= 0:  # as on Linux, the descriptor is released even when close reports an error
+                    self._c.op("close %s" % self._base, lambda: os.close(fd), on_fail=lambda: os.close(fd))
 
 
 def _install(counter, watch_dir):
@@ -210,9 +254,7 @@ def _install(counter, watch_dir):
         def f(src, dst, *a, **k):
             if not (watched(src) or watched(dst)):
                 return real(src, dst, *a, **k)
-            r = real(src, dst, *a, **k)
-            counter.done("%s %s -> %s" % (name, os.path.basename(os.fspath(src)), os.path.basename(os.fspath(dst))))
-            return r
+            return counter.op("%s %s -> %s" % (name, os.path.basename(os.fspath(src)), os.path.basename(os.fspath(dst))), lambda: real(src, dst, *a, **k))
 
         setattr(os, name, f)
 
@@ -222,9 +264,7 @@ def _install(counter, watch_dir):
         def f(p, *a, **k):
             if isinstance(p, int) or not watched(p):
                 return real(p, *a, **k)
-            r = real(p, *a, **k)
-            counter.done("%s %s" % (name, os.path.basename(os.fspath(p))))
-            return r
+            return counter.op("%s %s" % (name, os.path.basename(os.fspath(p))), lambda: real(p, *a, **k))
 
         setattr(os, name, f)
 
@@ -241,10 +281,12 @@ def _send(fd, obj):
         off += os.write(fd, data[off:])
 
 
-def run_write(write, path, crash_at, pieces, seed=0):
+def run_write(write, path, crash_at, pieces, seed=0, fault=None, versions=None, name=None):
     """fork; in the child run write(path) with the k-th file-system operation being the last one.
     crash_at=None: run to completion and report the operation trace.
-    returns (exit code, trace or None, raised or None)"""
+    fault: a failing operation (see _Counter); the child then judges the directory after every later
+    operation (= what a death at that instant would leave) and reports the verdicts.
+    returns (exit code, report of the child)"""
     r, w = os.pipe()
     sys.stdout.flush()
     pid = os.fork()
@@ -257,17 +299,37 @@ def run_write(write, path, crash_at, pieces, seed=0):
 
             gc.freeze()  # what the worker already holds is not garbage of this write (and scanning it costs 70 ms)
             sys.stdout = sys.stderr = io.StringIO()  # progress tables of the code under test die with the child
-            counter = _Counter(crash_at, pieces)
+            obs = []
+            real_open = builtins.open
+            d_ = os.path.dirname(path)
+
+            def observe(n, what):
+                st_ = {}
+                for fn in sorted(os.listdir(d_)):
+                    with real_open(os.path.join(d_, fn), "rb") as fh:
+                        st_[fn] = fh.read()
+                v = judge(st_, versions, name)
+                obs.append({"n": n, "op": what, "verdict": v, "shape": shape_of(st_, versions, name),
+                            "dir": {fn: describe(b, versions) for fn, b in st_.items()} if v else None})
+
+            counter = _Counter(crash_at, pieces, fault, observe if fault else None)
             torch.manual_seed(seed)
+            if fault and fault["mode"] == "rlimit":
+                import resource
+
+                signal.signal(signal.SIGXFSZ, signal.SIG_IGN)
+                resource.setrlimit(resource.RLIMIT_FSIZE, (fault["limit"], fault["limit"]))
             _install(counter, os.path.dirname(path))
             try:
                 write(path)
                 gc.collect()  # a file object left to the collector is closed now, as it would be in a living process
-                _send(w, {"trace": counter.trace})
+                _send(w, {"trace": counter.trace, "nbytes": counter.nbytes, "obs": obs, "faulted": counter.faulted})
                 code = 0
             except BaseException as e:  # noqa
                 fr = impl_frame(e)
-                _send(w, {"trace": counter.trace, "raised": "%s@%s" % (type(e).__name__, fr or "?"), "impl": fr is not None,
+                harness_fault = isinstance(e, OSError) and counter.faulted  # the injected error, or its consequence, came back out
+                _send(w, {"trace": counter.trace, "nbytes": counter.nbytes, "obs": obs, "faulted": counter.faulted,
+                          "raised": "%s@%s" % (type(e).__name__, fr or "?"), "impl": fr is not None or harness_fault,
                           "message": str(e)[:300], "tb": traceback.format_exc()[-1500:]})
                 code = EXIT_RAISED
         finally:
@@ -390,12 +452,34 @@ def _describe_dir(state, versions):
     return {fn: describe(v, versions) for fn, v in state.items()}
 
 
-def explore(write_of, versions, depth, pieces, picks, tmp, res, tags, ident, seed=0, max_fail=6):
+FAULT_LEVELS = 2  # failing operations are injected into the writes of the first two levels of the schedule tree
+
+
+def fault_points(fault, trace, nbytes):
+    """the failing-operation faults to inject into a write whose uninterrupted operation trace is `trace`"""
+    if not fault:
+        return []
+    mode = fault["mode"]
+    out = []
+    if mode == "rlimit":  # the file may grow to the middle of each raw write, and no further
+        size = {}
+        for op, nb in zip(trace, nbytes):
+            if opkind(op) == "write":
+                fn = op.split(" ", 1)[1]
+                out.append({"mode": "rlimit", "errno": "EFBIG", "limit": size.get(fn, 0) + nb // 2, "at": None, "what": op})
+                size[fn] = size.get(fn, 0) + nb
+        return out
+    for j, op in enumerate(trace, 1):
+        out.append({"mode": mode, "errno": fault["errno"], "at": j, "what": op})
+    return out
+
+
+def explore(write_of, versions, depth, pieces, picks, tmp, res, tags, ident, seed=0, max_fail=6, name=CK, fault=None):
     """write_of(i) -> callable(path) that writes version i (run in a forked child).
     Appends failures to res; returns (executions, non-trivial keys, label counts, frontier per level)."""
     d = os.path.join(tmp, "run")
     os.makedirs(d, exist_ok=True)
-    path = os.path.join(d, CK)
+    path = os.path.join(d, name)
     labels = {}
     keys = []
     evals = 0
@@ -404,49 +488,93 @@ def explore(write_of, versions, depth, pieces, picks, tmp, res, tags, ident, see
         labels[k] = labels.get(k, 0) + n
 
     reported = set()
+
+    def report(kind, key, detail, **t):
+        if key in reported or len(reported) >= max_fail:
+            return
+        reported.add(key)
+        res.fail(kind, detail, **t)
+
     # a frontier entry: (state, history, inside) ; history = list of step descriptions
-    frontier = [({CK: versions[0]}, [], False)]
+    frontier = [({name: versions[0]}, [], False)]
     for level in range(1, depth + 1):
         known = versions[: level + 1]
         write = write_of(level)
         classes = {}  # shape -> list of (state, history, inside)
         for state, hist, had_inside in frontier:
-            pre_shape = shape_of(state, versions[:level])
+            pre_shape = shape_of(state, versions[:level], name)
             code, info, posts = crash_states(write, state, d, path, pieces, seed)
             trace = info["trace"]
             n_ops = len(trace)
             if code == EXIT_RAISED:
                 lab("writer_raised")
-                key = ("raises", pre_shape)
-                if key not in reported and len(reported) < max_fail:
-                    reported.add(key)
-                    res.fail("raises:" + info["raised"], {"message": info["message"], "schedule": hist, "directory_before": _describe_dir(state, versions)},
-                             prestate=pre_shape, level=level, bucket=pre_shape)
+                report("raises:" + info["raised"], ("raises", pre_shape),
+                       {"message": info["message"], "schedule": hist, "directory_before": _describe_dir(state, versions)},
+                       prestate=pre_shape, level=level, bucket=pre_shape)
             if n_ops == 0:
                 lab("write_without_file_operations")
             for k, post in enumerate(posts, 1):
                 evals += 1
                 inside = k < n_ops
-                step = {"write": level, "died_after_op": k, "of": n_ops, "op": trace[k - 1], "completed": (not inside) and code == 0}
+                step = {"write": level, "point": "k%d" % k, "died_after_op": k, "of": n_ops, "op": trace[k - 1], "completed": (not inside) and code == 0}
                 lab("level%d" % level)
                 lab(("died_after:" + opkind(trace[k - 1])) if inside else "completed")
                 lab("pre:" + pre_shape)
                 if inside and level >= 2 and had_inside:
-                    keys.append((ident, [h["died_after_op"] for h in hist] + [k]))
-                verdict = judge(post, known)
+                    keys.append((ident, [h["point"] for h in hist] + [step["point"]]))
+                verdict = judge(post, known, name)
                 if verdict:
                     for kind, text in verdict:
-                        key = (kind, pre_shape)
-                        if key in reported or len(reported) >= max_fail:
-                            continue
-                        reported.add(key)
-                        res.fail(kind, {"what": text, "schedule": hist + [step], "directory_before": _describe_dir(state, versions),
-                                        "directory_after": _describe_dir(post, versions)},
-                                 prestate=pre_shape, level=level, died_after=opkind(trace[k - 1]), bucket=pre_shape)
+                        report(kind, (kind, pre_shape), {"what": text, "schedule": hist + [step], "directory_before": _describe_dir(state, versions),
+                                                         "directory_after": _describe_dir(post, versions)},
+                               prestate=pre_shape, level=level, died_after=opkind(trace[k - 1]), bucket=pre_shape)
                     continue  # nothing is explored behind a state that already violates the property
-                sh = shape_of(post, known)
+                sh = shape_of(post, known, name)
                 step = dict(step, leaves=sh)
                 classes.setdefault(sh, []).append((post, hist + [step], had_inside or inside))
+            # ---- operations that fail (OSError) and hand control back to the program
+            if level > FAULT_LEVELS or code != 0:
+                continue
+            for f in fault_points(fault, trace, info.get("nbytes") or [0] * n_ops):
+                restore_dir(d, state)
+                rc, finfo = run_write(write, path, None, pieces, seed, fault=f, versions=known, name=name)
+                if not finfo.get("faulted"):
+                    lab("fault_not_reached")
+                    continue
+                evals += 1
+                post = read_dir(d)
+                fkind = opkind(f["what"])
+                ftag = "%s:%s@%s" % (f["errno"], f["mode"], fkind)
+                outcome = "failed_loudly" if rc == EXIT_RAISED else "carried_on"
+                lab("level%d" % level)
+                lab("pre:" + pre_shape)
+                lab("fault:%s:%s" % (f["mode"], fkind))
+                lab("fault_outcome:" + outcome)
+                pid_ = "f%s:%s" % (f["at"] if f["at"] else f["limit"], f["mode"])
+                step = {"write": level, "point": pid_, "failed_op": f["at"], "op": f["what"], "error": f["errno"], "mode": f["mode"], "outcome": outcome,
+                        "operations": finfo["trace"]}
+                if f["mode"] == "rlimit":
+                    step["file_size_limit"] = f["limit"]
+                if level >= 2 and had_inside:
+                    keys.append((ident, [h["point"] for h in hist] + [pid_]))
+                bad = False
+                for o in finfo["obs"]:  # the directory at every instant from the failure on
+                    for kind, text in o["verdict"]:
+                        bad = True
+                        report(kind, (kind, pre_shape, "fault", fkind),
+                               {"what": text, "schedule": hist + [step], "instant": "after operation %d (%s) of that write" % (o["n"], o["op"]),
+                                "directory_before": _describe_dir(state, versions), "directory_at_that_instant": o["dir"],
+                                "directory_when_the_write_ended": _describe_dir(post, versions)},
+                               prestate=pre_shape, level=level, fault=ftag, failed_op=fkind, outcome=outcome, bucket="%s/%s failed" % (pre_shape, fkind))
+                for kind, text in judge(post, known, name):
+                    bad = True
+                    report(kind, (kind, pre_shape, "fault", fkind),
+                           {"what": text, "schedule": hist + [step], "instant": "after the write ended (%s)" % outcome,
+                            "directory_before": _describe_dir(state, versions), "directory_when_the_write_ended": _describe_dir(post, versions)},
+                           prestate=pre_shape, level=level, fault=ftag, failed_op=fkind, outcome=outcome, bucket="%s/%s failed" % (pre_shape, fkind))
+                if not bad:
+                    sh = shape_of(post, known, name)
+                    classes.setdefault(sh, []).append((post, hist + [dict(step, leaves=sh)], True))
         frontier = []
         for i, sh in enumerate(sorted(classes)):
             members = classes[sh]
@@ -857,7 +985,7 @@ def _body_syscall(c, tmp):
             res.fail(kind, {"what": text, "schedule": hist + [step], "directory_before": _describe_dir(state, versions), "directory_after": _describe_dir(post, versions)},
                      prestate=pre_shape, level=level, died_after=opkind(trace[k - 1]), bucket=pre_shape)
         if k < n and level == 2 and had_inside:
-            keys.append((c["site"], c["sizes"], c["two_d"], [h["died_after_op"] for h in hist] + [k]))
+            keys.append((c["site"], c["sizes"], c["two_d"], [h["point"] for h in hist] + ["k%d" % k]))
     res.evals = len(ks)
     res.keys = keys
     res.labels = labels
